@@ -10,11 +10,16 @@ A fact that can no longer be extracted is reported in the returned `problems`
 list (and the Lean file keeps a sentinel value so the dependent theorem fails to
 re-check rather than silently keeping an old value).
 
+Code (decisions, arithmetic, guards at named sites) is translated by
+harness/py2lean.py into Generated/Code.lean, also on every run.
+
 Files are written only when their content changed, so an unchanged source is a
 no-op for `lake build`.
 """
 from __future__ import annotations
 import ast, os, sys, json, subprocess, textwrap
+sys.path.insert(0, os.path.dirname(os.path.abspath(__file__)))
+import py2lean
 
 REPO = os.environ.get('LOMOND_REPO', '/repo')
 HERE = os.path.dirname(os.path.abspath(__file__))
@@ -485,7 +490,13 @@ end Lomond.Gen
         changed.append('Tables.lean')
     if write_if_changed(os.path.join(GEN, 'Facts.lean'), facts_lean):
         changed.append('Facts.lean')
-    return dict(problems=problems, changed=changed, facts=facts)
+    # ---- code (not only tables): harness/py2lean.py -> Generated/Code.lean ------------------------
+    # a site outside the translated subset is a problem and leaves a `Py.Untranslated` definition
+    code_lean, code_problems, code_defs = py2lean.generate(REPO)
+    problems += code_problems
+    if write_if_changed(os.path.join(GEN, 'Code.lean'), code_lean):
+        changed.append('Code.lean')
+    return dict(problems=problems, changed=changed, facts=facts, code_defs=sorted(code_defs))
 
 
 if __name__ == '__main__':
